@@ -190,7 +190,9 @@ int main(int argc, char** argv)
                 c->kind = ext ? "pairs_ext" : "pairs_task";
                 c->init(ext ? P : 2 * P);
                 expected = c->K;
-                for (int i = 0; i < P; ++i) spawn([c, i, rounds] { waiter_body(c, i, rounds); }, i, 0);
+                // normal / high priority only: the wakers spin (yield) while they wait for the next
+                // registration, which would starve a low-priority waiter for ever
+                for (int i = 0; i < P; ++i) spawn([c, i, rounds] { waiter_body(c, i, rounds); }, i % 2, 0);
                 for (int i = 0; i < P; ++i)
                 {
                     if (ext) ths.emplace_back([c, i, rounds] { waker_loop(c, i, rounds, false); });
@@ -202,7 +204,7 @@ int main(int argc, char** argv)
                                 waker_loop(c, i, rounds, true);
                                 b.seg_in();
                             },
-                            i + 1, 0);
+                            (i + 1) % 2, 0);
                 }
             }
             else if (kind == 4)
